@@ -319,7 +319,7 @@ def render_cpp(prog, plan, header_names):
     return src
 
 
-def build_and_run(art, work, prog, plan, std="c++17", sanitize=True, lib=None, rust_src=None):
+def build_and_run(art, work, prog, plan, std="c++17", sanitize=True, lib=None, rust_src=None, cxx="g++", opt="-O0"):
     if lib is None:
         rust_src = e2e.render_rust(prog, plan, reject=call_rejected)
         entry = os.path.join(work, "lib.rs")
@@ -340,10 +340,10 @@ def build_and_run(art, work, prog, plan, std="c++17", sanitize=True, lib=None, r
     f = os.path.join(work, "driver_%s.cpp" % std.replace("+", "p"))
     open(f, "w").write(src)
     exe = os.path.join(work, "driver_" + std.replace("+", "p"))
-    flags = ["-std=" + std, "-O0", "-w", "-I", r.outdir]
+    flags = ["-std=" + std, opt, "-w", "-I", r.outdir]
     if sanitize:
         flags += ["-fsanitize=address,undefined", "-fno-sanitize-recover=undefined", "-g"]
-    p = subprocess.run(["g++"] + flags + [f, lib, "-lpthread", "-ldl", "-lm", "-o", exe], stdout=subprocess.PIPE, stderr=subprocess.PIPE, text=True)
+    p = subprocess.run([cxx] + flags + [f, lib, "-lpthread", "-ldl", "-lm", "-o", exe], stdout=subprocess.PIPE, stderr=subprocess.PIPE, text=True)
     if p.returncode != 0:
         return {"status": "cc-failed", "stderr": p.stderr[-3000:], "rust_src": rust_src, "cpp_src": src, "lib": lib}
     env = dict(os.environ)
